@@ -956,6 +956,8 @@ impl<'a> Builder<'a> {
             SinkKind::CollectVecAll => SinkHandle::Vec(s.collect_vec_all()),
             SinkKind::CollectCount => SinkHandle::Count(s.collect_count()),
             SinkKind::CollectChannel => SinkHandle::Chan(s.collect_channel()),
+            SinkKind::CollectAll => SinkHandle::Vec(s.collect_all::<Vec<E>>()),
+            SinkKind::CollectChannelParallel => SinkHandle::Chan(s.collect_channel_parallel()),
             SinkKind::ForEach => {
                 let out = Arc::new(Mutex::new(Vec::new()));
                 let o2 = out.clone();
@@ -969,7 +971,7 @@ impl<'a> Builder<'a> {
 
 /// after `execute_blocking` returned on this host: move the sink values into the recorder
 pub fn harvest_sinks(sinks: Vec<(u32, SinkKind, SinkHandle)>, host: u64) {
-    for (id, _kind, h) in sinks {
+    for (id, kind, h) in sinks {
         let v = match h {
             SinkHandle::Vec(o) => match o.get() {
                 Some(v) => SinkValue::Vec(v),
@@ -981,7 +983,7 @@ pub fn harvest_sinks(sinks: Vec<(u32, SinkKind, SinkHandle)>, host: u64) {
             },
             SinkHandle::Chan(rx) => {
                 let v: Vec<E> = rx.drain().collect();
-                if host == 0 || !v.is_empty() {
+                if host == 0 || !v.is_empty() || kind == SinkKind::CollectChannelParallel {
                     SinkValue::Vec(v)
                 } else {
                     SinkValue::None
